@@ -21,6 +21,11 @@ pub fn run(ctx: &mut RunCtx) -> Result<(), Violation> {
     let mut s = ctx.stream("sched");
     let class = if ctx.thorough { pick_class(&mut w, [8, 5, 4, 1]) } else { pick_class(&mut w, [10, 4, 2, 0]) };
     let heavy = w.chance(1, 3);
+    // a steady share of runs proves a circuit with hundreds to thousands of public inputs
+    if ctx.run % 150 == 77 || (ctx.thorough && ctx.run % 50 == 27) {
+        let k = crate::scenario::pi_heavy_count(&mut w);
+        crate::scenario::set_pi_heavy(Some(k));
+    }
     let sc = gen_scenario(ctx, &mut w, &ScenCfg { class, heavy, raw: true, exact_target: true, max_ops: 40 });
     let sig = scenario_sig(&sc);
     let version = if w.chance(1, 4) { PlonkVersion::V2 } else { PlonkVersion::V3 };
